@@ -1,7 +1,7 @@
 #!/bin/bash
-# usage: tools/try_neutral.sh <dir with patchN.diff> — every check must stay silent on each patch
+# usage: tools/try_neutral.sh <dir with patchN.diff> [parallelism] — every check must stay silent on each patch.
+# Prints one block per patch; a patch that is reported by any check is a false alarm to repair.
 HERE="$(cd "$(dirname "$0")/.." && pwd)"
-for pch in "$1"/patch*.diff; do
-  echo "### $(basename $pch)"
-  "$HERE/tools/try_patch.sh" "$pch" | cut -c1-330 | tail -6
-done
+P=${2:-5}
+"$HERE/run.sh" build || exit 2
+ls "$1"/patch*.diff | sort -V | xargs -P "$P" -I{} bash -c 'o=$("'"$HERE"'/tools/try_patch.sh" {} 2>&1 | cut -c1-330 | tail -6); printf "### %s\n%s\n" "{}" "$o"'
